@@ -167,18 +167,33 @@ def fetch_rule(ctx, repo):
     ctx.rule('C20.2-fetch-count', 'fetch counter decrement == number of M1 fetches: DD/FD expression folds to the R increment for all R (Python and C); 2 for CB/ED, 1 otherwise', floor=4)
     mod = repo.mod('rzxplay')
     pb = mod.func('process_block')
-    pyexpr = None
-    other = None
+    # the body of the per-instruction loop (`while fetch_counter > 0`) is folded once per case with a model handler in place of
+    # opcodes[opcode](): whatever form the counter update takes, the counter must drop by the number of M1 fetches
+    loop = None
     for n in ast.walk(pb):
-        if isinstance(n, ast.If) and isinstance(n.test, ast.Compare) and ast.unparse(n.test) in ('opcode in (221, 253)', 'opcode in (0xDD, 0xFD)'):
-            for st in n.body:
-                if isinstance(st, ast.AugAssign) and ast.unparse(st.target) == 'fetch_counter' and isinstance(st.op, ast.Sub):
-                    pyexpr = st.value
-            for st in n.orelse:
-                if isinstance(st, ast.AugAssign) and ast.unparse(st.target) == 'fetch_counter' and isinstance(st.op, ast.Sub):
-                    other = st.value
-    if pyexpr is None or other is None:
-        raise FactError('skoolkit/rzxplay.py: fetch counter updates in process_block not recognised')
+        if isinstance(n, ast.While) and isinstance(n.test, ast.Compare) and any(isinstance(x, ast.Name) and x.id == 'fetch_counter' for x in ast.walk(n.test)):
+            if any(isinstance(x, ast.Subscript) and isinstance(x.value, ast.Name) and x.value.id == 'opcodes' for x in ast.walk(n)):
+                loop = n
+    if loop is None:
+        raise FactError('skoolkit/rzxplay.py: the per-instruction loop of process_block (while fetch_counter > 0 ... opcodes[opcode]()) not recognised')
+    from sa.core.pyfacts import FuncFold, FOLDED_NONE
+    def step(opcode, nb, d, r0, pc):
+        regs = [0] * 30
+        regs[15], regs[24], regs[25] = r0, pc, 1000
+        mem = [0] * 65536
+        mem[pc], mem[(pc + 1) % 65536] = opcode, nb
+        def hook(n, lit):
+            if isinstance(n, ast.Call) and isinstance(n.func, ast.Subscript) and isinstance(n.func.value, ast.Name) and n.func.value.id == 'opcodes':
+                regs[15] = (r0 & 0x80) | ((r0 + d) & 0x7F)
+                regs[24] = (pc + d) % 65536
+                return FOLDED_NONE
+            return None
+        hook.wants_lit = True
+        ff = FuncFold(repo, 'rzxplay', {}, hook)
+        ff.env = {'registers': regs, 'memory': mem, 'fetch_counter': 100, 'exec_map': None, 'tracefile': None, 'opcodes': None, 'context': None}
+        for st in loop.body:
+            ff.stmt(st)
+        return 100 - ff.env['fetch_counter']
     def after(r0, d):
         return (r0 & 0x80) | ((r0 + d) & 0x7F)
     # number of M1 fetches of the Python simulator's handler for DD/FD followed by each possible byte: its R increment, from the
@@ -211,7 +226,7 @@ def fetch_rule(ctx, repo):
                     for pc in (0x8000, 0xFFFF, 0xFFFE):
                         mem = {(pc + 1) % 65536: nb, pc: pre, (pc + 2) % 65536: 0, (pc + 3) % 65536: 0}
                         try:
-                            got = Lit(repo, 'rzxplay', {'r0': r0, 'registers': {15: after(r0, d), 24: (pc + d) % 65536}, 'memory': mem, 'pc': pc, 'opcode': pre}).ev(pyexpr)
+                            got = step(pre, nb, d, r0, pc)
                         except (NotLiteral, KeyError) as e:
                             undecided = str(e)
                             break
@@ -223,15 +238,19 @@ def fetch_rule(ctx, repo):
             if undecided: break
         if undecided: break
     if undecided:
-        ctx.limit('py fetch DD/FD', 'fetch counter expression `%s` not foldable over (R before, R after, next byte): %s' % (ast.unparse(pyexpr), undecided))
+        ctx.limit('py fetch DD/FD', 'the per-instruction loop is not foldable over (R before, R after, next byte): %s' % undecided)
     elif bad:
-        ctx.violation('py fetch DD/FD', 'skoolkit/rzxplay.py:%d' % pyexpr.lineno, 'for the sequence %02X %02X the simulator handler performs %d opcode fetch(es) (its R increment) but the fetch counter drops by %d' % bad)
+        ctx.violation('py fetch DD/FD', 'skoolkit/rzxplay.py:%d' % loop.lineno, 'for the sequence %02X %02X the simulator handler performs %d opcode fetch(es) (its R increment) but the fetch counter drops by %d' % bad)
     else:
-        ctx.ok({'impl': 'python', 'expr': ast.unparse(pyexpr), 'cases': checked})
+        ctx.ok({'impl': 'python', 'cases': checked})
     for op, want in ((0xCB, 2), (0xED, 2), (0x00, 1), (0x76, 1), (0xFF, 1)):
-        got = Lit(repo, 'rzxplay', {'opcode': op}).ev(other)
+        try:
+            got = step(op, 0, want, 0x7F, 0x8000)
+        except (NotLiteral, KeyError) as e:
+            ctx.limit('py fetch opcode %02X' % op, 'not foldable: %s' % e)
+            continue
         if got != want:
-            ctx.violation('py fetch opcode %02X' % op, 'skoolkit/rzxplay.py:%d' % other.lineno, 'opcode 0x%02X decrements the fetch counter by %d, expected %d' % (op, got, want))
+            ctx.violation('py fetch opcode %02X' % op, 'skoolkit/rzxplay.py:%d' % loop.lineno, 'opcode 0x%02X decrements the fetch counter by %d, expected %d' % (op, got, want))
         else:
             ctx.ok({'impl': 'python', 'opcode': hex(op), 'decrement': got})
     # C
@@ -440,7 +459,13 @@ def boundary_rule(ctx, repo):
 
 def run(ctx):
     repo = pyfacts.Repo(ctx.repo_root)
-    container_rule(ctx, repo)
+    try:
+        container_rule(ctx, repo)
+    except FactError as e:
+        # the layout rule reads the header tuples of write_rzx syntactically; when they are written another way the clause is left to
+        # the folded write_rzx -> parse_rzx round trip (C20.6) below
+        if not ctx.waive('C20.1-container', 'shape not recognised (%s); the container round trip C20.6 decides the clause' % e):
+            raise
     boundary_rule(ctx, repo)
     fetch_rule(ctx, repo)
     roundtrip_rule(ctx, repo)
